@@ -53,6 +53,7 @@ type env struct {
 	order      []types.Hash256
 	rootIDs    map[types.Hash256]int
 	setupErr   error
+	zeroTail   types.Hash256
 	nScenarios int
 }
 
@@ -142,8 +143,19 @@ func setup(r *vh.Run) *env {
 		root := e.newSector(byte(i + 1))
 		must(e.h.Sectors.StoreSector(root, e.sectors[root], nil, 1000))
 	}
+	// a sector whose tail is zeros (what a renter stores when it pads a short upload)
+	var zt [proto4.SectorSize]byte
+	for i := 0; i < zeroTailPrefix; i++ {
+		zt[i] = byte(i*13 + 1)
+	}
+	e.zeroTail = proto4.SectorRoot(&zt)
+	e.sectors[e.zeroTail] = &zt
+	must(e.h.Sectors.StoreSector(e.zeroTail, &zt, nil, 1000))
 	return e
 }
+
+// zeroTailPrefix is the length of the non-zero prefix of the zero-tail sector.
+const zeroTailPrefix = 4096 + 192
 
 // sync re-reads the renter's view and the ground-truth roots from the host.
 func (e *env) sync() {
@@ -432,6 +444,8 @@ func Run(r *vh.Run) {
 	for _, x := range reads {
 		add(e.readScenario(e.order[e.rng.Intn(3)], x.off, x.n))
 	}
+	// whole-sector and long reads of the zero-tail sector
+	add(e.readScenario(e.zeroTail, 0, proto4.SectorSize), e.readScenario(e.zeroTail, 4096, 8192))
 	// --- write
 	for _, n := range []uint64{64, 4096, proto4.SectorSize, 100, 0} {
 		add(e.writeScenario(n))
